@@ -246,11 +246,16 @@ func cmdCheck(args []string) int {
 	var names []string
 	var fcs []*FnContract
 	var tableErrs []string
+	quickSubsets = nil
 	for _, fc := range db.Order {
 		if !fc.HasProp(prop) {
 			continue
 		}
 		if fc.IsTable {
+			if tier != "thorough" && len(fc.QuickKeys) > 0 {
+				quickSubsets = append(quickSubsets, fmt.Sprintf("%s: quick tier verifies %d of %d keys (all keys in the thorough tier)", fc.Name, len(fc.QuickKeys), len(fc.Keys)))
+				fc.Keys = fc.QuickKeys
+			}
 			insts, err := ExpandTable(p, db, fc)
 			if err != nil {
 				tableErrs = append(tableErrs, err.Error())
@@ -441,6 +446,9 @@ func writeReplayText(prop, obl, text string) string {
 	return path
 }
 
+// quickSubsets: tables of which the quick tier verified only the declared key subset (reported as bounded notes)
+var quickSubsets []string
+
 func writeEvidence(prop, tier string, seed int, cfg PropConfig, results []*FnResult, fnNames []string, nObl int, extra map[string]interface{}, wall float64, violations int, lemmas []LemmaResult, lines []string) {
 	level := cfg.Level
 	if level == "" {
@@ -480,6 +488,7 @@ func writeEvidence(prop, tier string, seed int, cfg PropConfig, results []*FnRes
 	cov["functions_under_contract"] = fnNames
 	cov["explanation"] = "obligations = safety (idx/slice/nil/div/conv/alloc/panic), pre/post/inv/dec clauses and spec lemmas generated from /repo's current source; discharged = proved unsat for all inputs (no bound) unless listed under bounded"
 	bnotes := append([]string{}, cfg.Bounded...)
+	bnotes = append(bnotes, quickSubsets...)
 	for _, r := range results {
 		if r.Contract != nil && r.Contract.Opts["bounded"] != "" {
 			bnotes = append(bnotes, fmt.Sprintf("%s: %s (%d obligations; a bounded stand-in, not counted as proved)", r.Name, r.Contract.Opts["bounded"], len(r.Obls)))
